@@ -182,7 +182,8 @@ def _try_harness(prop, flavour, ds, mac=None):
         # odd steps can fail (and_then); even steps rotate over recovery / pass-through operators, so that a failure in a
         # non-final step is always followed by an operator that would "repair" it if the step check were skipped
         if s % 2 == 1:
-            return "and_then"
+            # every other one as a deferred WRAPPER (`~=> >>> -> f <<<` is `.and_then(|v| f(v))`): it must open the step too
+            return "wrap_and_then" if (i + s // 2) % 2 == 1 else "and_then"
         return ["or_else", "then", "map_err" if not opt else "or", "and_then", "or_else"][(i + len(ds) + s // 2) % 5]
 
     def later_macro(i, s):
@@ -190,6 +191,8 @@ def _try_harness(prop, flavour, ds, mac=None):
         c = "code(K_CALL, %d, %d, 0)" % (i, s)
         if k == "and_then":
             return "~=> |x: u8| { ev(%s); %s }" % (c, cb_body(i, s, "x"))
+        if k == "wrap_and_then":
+            return "~=> >>> -> |x: u8| { ev(%s); %s } <<<" % (c, cb_body(i, s, "x"))
         if k == "or_else":
             return ("~<= || { ev(%s); Some(%du8) }" % (c, K(i, s))) if opt else ("~<= |e: u8| { ev(%s); Ok::<u8, u8>(e.wrapping_add(%d)) }" % (c, K(i, s)))
         if k == "or":
@@ -203,7 +206,7 @@ def _try_harness(prop, flavour, ds, mac=None):
     def later_ref(i, s):
         """reference for one later step of branch i, whose current value v_i is a success"""
         k = later_kind(i, s)
-        if k in ("and_then", "then"):
+        if k in ("and_then", "then", "wrap_and_then"):
             return "ev(code(K_CALL, %d, %d, 0)); let r%d: %s = %s;" % (i, s, i, ty, cb_body(i, s, "v%d" % i))
         if k == "or":
             # `.or(operand)`: the operand expression is evaluated (eagerly), the value stays
@@ -291,7 +294,7 @@ def _try_harness(prop, flavour, ds, mac=None):
                 b += "    assert!(%d >= tlen() || fail_step < 0 || (step_of(tr(%d)) as i32) <= fail_step, \"C06: event of a step after the failing one\");\n" % (k, k)
     # ---- covers (vacuity guards)
     b += "    kani_cover!(r.is_%s());\n" % ("some" if opt else "ok")
-    if any(later_kind(i, s) in ("and_then", "then") for i in range(n) for s in range(1, ds[i])):
+    if any(later_kind(i, s) in ("and_then", "then", "wrap_and_then") for i in range(n) for s in range(1, ds[i])):
         b += "    kani_cover!(fail_step >= 1);\n"
     name = "%s_try_%s_%s%s" % (prop.lower(), flavour, pname(ds), ("_" + spawn_mac) if spawn_mac else "")
     return Harness(name, harness_fn(name, b, unwind=((3 + max(ds)) if is_async else None)), prog,
@@ -1599,9 +1602,51 @@ def _try_async_spawn_harness(prop, ds):
     return Harness(name, harness_fn(name, b), prog, note="profile %s, try_join_async_spawn (tokio tasks, native)" % (ds,))
 
 
+def _c09_tokio_harnesses(prop):
+    """C09 under the tokio-spawning macros (native only, wall-clock timeout 5 s per program): the macro future is lazy,
+    branches of a step make progress concurrently, and it completes whenever every branch can"""
+    out = []
+    T = "tokio::time::timeout(std::time::Duration::from_secs(5), %s).await"
+    progs = [
+        # an operand that awaits INLINE while the step is being assembled, released by an earlier sibling of the same step
+        ("inline_await_released_by_sibling", "join_async_spawn",
+         "let (tx, rx) = futures::channel::oneshot::channel::<u8>();",
+         "async move { let _ = tx.send(7); 1u8 }, rx.await.unwrap() -> |v: u8| async move { v }", "(1u8, 7u8)"),
+        # a branch future that waits for its sibling (either order)
+        ("first_waits_for_second", "join_async_spawn",
+         "let (tx, rx) = futures::channel::oneshot::channel::<u8>();",
+         "async move { rx.await.unwrap() }, async move { let _ = tx.send(5); 2u8 }", "(5u8, 2u8)"),
+        ("second_waits_for_first_later_step", "join_async_spawn",
+         "let (tx, rx) = futures::channel::oneshot::channel::<u8>();",
+         "async { 1u8 } ~|> move |x: u8| { let _ = tx.send(x + 1); x } , async { 3u8 } ~-> move |f| async move { let y = f.await; y + rx.await.unwrap() }", "(1u8, 5u8)"),
+        ("try_first_waits_for_second", "try_join_async_spawn",
+         "let (tx, rx) = futures::channel::oneshot::channel::<u8>();",
+         "async move { Ok::<u8, u8>(rx.await.unwrap()) }, async move { let _ = tx.send(5); Ok::<u8, u8>(2) }", "Ok::<(u8, u8), u8>((5u8, 2u8))"),
+        ("non_spawn_first_waits_for_second", "join_async",
+         "let (tx, rx) = futures::channel::oneshot::channel::<u8>();",
+         "async move { rx.await.unwrap() }, async move { let _ = tx.send(5); 2u8 }", "(5u8, 2u8)"),
+    ]
+    for (name, mac, pre, body, exp) in progs:
+        prog = "%s! { %s }" % (mac, body)
+        b = "    let r = block_on_tokio(async move {\n        %s\n        let fut = %s;\n        %s\n    });\n" % (pre, prog, T % "fut")
+        b += "    assert!(r.is_ok(), \"C09: the macro's future did not complete although every branch could\");\n"
+        b += "    assert!(r.unwrap() == %s, \"C09: wrong result\");\n" % exp
+        hn = "%s_tokio_%s" % (prop.lower(), name)
+        out.append(Harness(hn, harness_fn(hn, b), prog, note="tokio runtime (3 workers), 5 s timeout, native"))
+    # laziness: nothing runs before the first poll
+    prog = "join_async_spawn! { async { ev(code(K_INIT, 0, 0, 0)); 1u8 }, tag(code(K_INIT, 1, 0, 0), async { 2u8 }) |> { ev(code(K_CAP, 1, 0, 1)); |x: u8| x + 1 } }"
+    b = "    let r = block_on_tokio(async move {\n        let fut = %s;\n        let before = tlen();\n        tokio::task::yield_now().await;\n        let before2 = tlen();\n        (before, before2, fut.await)\n    });\n" % prog
+    b += "    assert!(r.0 == 0 && r.1 == 0, \"C09: something was evaluated before the first poll\");\n"
+    b += "    assert!(r.2 == (1u8, 3u8));\n"
+    out.append(Harness("%s_tokio_lazy" % prop.lower(), harness_fn("%s_tokio_lazy" % prop.lower(), b), prog, note="tokio runtime, laziness of the spawning macro"))
+    return out
+
+
 def native_families(pid, tier):
     out = []
     quick = tier == "quick"
+    if pid == "C09":
+        out += _c09_tokio_harnesses(pid)
     if pid == "C04":
         for mac, var in [("join_async_spawn", "plain"), ("try_join_async_spawn", "plain"), ("join_async_spawn", "then"), ("try_join_async_spawn", "map"), ("async_spawn", "plain")]:
             for ds in [(1, 2), (2, 1), (1, 2, 2), (2, 1, 3), (3, 1, 2), (1, 2, 3), (2, 1, 2, 2)]:
